@@ -157,7 +157,7 @@ def element_ranges(data, fmt):
                     out.append((start, i + 1))
     else:
         for i, line in enumerate(lines):
-            m = re.match(rb"^( *)- \S", line)
+            m = re.match(rb"^( *)- [\w\-]+:( |$)", line)     # a mapping entry, not a scalar value
             if not m:
                 continue
             ind = len(m.group(1))
@@ -185,7 +185,85 @@ def dup_element_ids(new, fault, fmt):
         return None
     lines = new.split(b"\n")
     block = b"\n".join(lines[fault["l1"]:fault["l2"]])
-    return set(m.group(1).decode("ascii") for m in _ID_IN_TEXT.finditer(block))
+    ids = set(m.group(1).decode("ascii") for m in _ID_IN_TEXT.finditer(block))
+    return ids or None      # an element without an id line is not a Section / Property record
+
+
+DICT_ATTR = rb"(unit|uncertainty|definition|reference|value_origin|dependency|dependency_value|author|version|date)"
+JSON_ATTR_LINE = re.compile(rb'^( *)"' + DICT_ATTR + rb'": ("[^"\\]*"|-?[0-9.]+),?$')
+YAML_ATTR_LINE = re.compile(rb"^( *(?:- )?)" + DICT_ATTR + rb": ([^\n]+)$")
+
+
+def _key_indent(line):
+    """Indentation of the mapping key on a JSON / YAML line ('- ' of a YAML list item counts)."""
+    m = re.match(rb"^( *(?:- )?)", line)
+    return len(m.group(1))
+
+
+def dict_attr_record_owner(new, fault, fmt):
+    """JSON / YAML counterpart of attr_record_owner: the single fault is confined to the scalar of
+    one attribute line (or drops / repeats exactly that line); returns the id stored in the same
+    mapping, '' for a Document-level attribute, None if the fault is of another kind."""
+    lines = new.split(b"\n")
+    pat = JSON_ATTR_LINE if fmt == "json" else YAML_ATTR_LINE
+    target = None
+    kind = fault["kind"]
+    if kind == "bitflip":
+        pos = 0
+        for i, ln in enumerate(lines):
+            if pos <= fault["off"] < pos + len(ln):
+                m = pat.match(ln)
+                if m:
+                    a, b = m.span(3)
+                    if fmt == "json" and ln[a:a + 1] == b'"':
+                        a, b = a + 1, b - 1
+                    rel = fault["off"] - pos
+                    if a <= rel < b:
+                        ch = ln[rel] ^ (1 << fault["bit"])
+                        if 0x20 < ch < 0x7f and ch not in (0x22, 0x5c, 0x27, 0x3a, 0x23, 0x7b, 0x7d,
+                                                           0x5b, 0x5d, 0x2c, 0x26, 0x2a, 0x21, 0x7c,
+                                                           0x3e, 0x25, 0x40, 0x60):
+                            target = i
+                break
+            pos += len(ln) + 1
+    elif kind in ("drop", "dup"):
+        # a YAML line carrying the '- ' of its list item is structural: without it the following
+        # keys fall into the previous item
+        if fault["l2"] - fault["l1"] == 1 and fault["l1"] < len(lines) and \
+                pat.match(lines[fault["l1"]]) and not lines[fault["l1"]].lstrip().startswith(b"- "):
+            target = fault["l1"]
+    if target is None:
+        return None
+    ind = _key_indent(lines[target])
+    id_pat = re.compile(rb'^ *(?:- )?"?id"?: *["\']?([0-9a-f-]{36})')
+    first_key = lines[target].lstrip().startswith(b"- ")
+    for step in (-1, 1):
+        if step == -1 and first_key:
+            continue      # the target line opens its YAML list item: nothing of it lies above
+        # scan the lines of the same mapping: same key indentation; deeper lines belong to nested
+        # values; a shallower line ends the mapping
+        j = target + step
+        while 0 <= j < len(lines):
+            ln = lines[j]
+            if ln.strip():
+                k = _key_indent(ln)
+                if k < ind:
+                    break
+                if k == ind:
+                    opens_item = ln.lstrip().startswith(b"- ")
+                    if step == 1 and opens_item:
+                        break     # the next list item begins
+                    m = id_pat.match(ln)
+                    if m:
+                        return m.group(1).decode("ascii")
+                    if step == -1 and opens_item:
+                        break     # first key of this list item reached
+            j += step
+    return ""
+
+
+def owner_is_dup(excluded, fault):
+    return excluded is not None and fault["kind"] == "dup" and fault["l2"] - fault["l1"] > 1
 
 
 def kept_parts(ref_doc, lenient_doc, excluded, what):
@@ -477,10 +555,18 @@ def run_case(case):
                 excluded = dup_element_ids(new, faults[0], fmt)
                 if excluded is not None:
                     res.count("labels", "kept-parts-dup-judged")
+                else:
+                    owner = dict_attr_record_owner(new, faults[0], fmt)
+                    if owner is not None:
+                        excluded = {owner}
+                        res.count("labels", "kept-parts-judged")
+                what = "repeating one complete element" if owner_is_dup(excluded, faults[0]) else \
+                    "fault in one attribute record"
+                if excluded is not None:
                     clean = json.loads(new.decode("utf-8")) if fmt == "json" else \
                         yaml.safe_load(new.decode("utf-8"))
                     ref_doc = DictReader(show_warnings=False, ignore_errors=True).to_odml(clean)
-                    vio = kept_parts(ref_doc, lenient_doc, excluded, "repeating one complete element")
+                    vio = kept_parts(ref_doc, lenient_doc, excluded, what)
                     if vio:
                         labels.append("entry:kept-parts")
         res.log.append(jdump({"faults": faults, "outcomes": outcomes}))
